@@ -1,5 +1,6 @@
 import ShpanVerif.Drive.PipeCommon
 import ShpanVerif.Drive.PipeDyn
+import ShpanVerif.Drive.JoinLife
 /-
 Driver handler for C03 (sequential part): a fault (error / panic(error) / panic(value)) at a call position
 of the fault-free run must surface: the terminal returns an error whose chain contains the injected error
@@ -34,6 +35,7 @@ def specRun (p : Pipe) (r : Run) (o : ObsRun) : Bool × String :=
 
 def handle (c obs : String) : String × Bool × String :=
   if c.startsWith "DYN " then ShpanVerif.Drive.PipeDyn.handle c obs else   -- FlatMap family (Model/PipeDyn.lean)
+  if c.startsWith "JL " then ShpanVerif.Drive.JoinLife.handle c obs else    -- lifecycle of the joins (Model/JoinLife.lean)
   if isSpecOnly c then
     -- operators outside the model (sequential): a fault whose call position was reached must surface with the
     -- injected root, and what was delivered must be a prefix of what the same case delivers without the fault
